@@ -73,7 +73,38 @@ func mask(w int) uint64 {
 	return (uint64(1) << uint(w)) - 1
 }
 
+type termKey struct {
+	op         Op
+	w          int
+	val        uint64
+	name       string
+	a0, a1, a2 int
+	n          int
+}
+
+var termTab2 = map[termKey]*Term{}
+
 func mkTerm(op Op, w int, args []*Term, val uint64, name string) *Term {
+	if len(args) <= 3 {
+		k := termKey{op: op, w: w, val: val, name: name, n: len(args)}
+		switch len(args) {
+		case 3:
+			k.a2 = args[2].id
+			fallthrough
+		case 2:
+			k.a1 = args[1].id
+			fallthrough
+		case 1:
+			k.a0 = args[0].id
+		}
+		if t, ok := termTab2[k]; ok {
+			return t
+		}
+		termSeq++
+		t := &Term{op: op, w: w, args: args, val: val, name: name, id: termSeq}
+		termTab2[k] = t
+		return t
+	}
 	var sb strings.Builder
 	fmt.Fprintf(&sb, "%d:%d:%d:%s", op, w, val, name)
 	for _, a := range args {
@@ -89,10 +120,23 @@ func mkTerm(op Op, w int, args []*Term, val uint64, name string) *Term {
 	return t
 }
 
+var bv8 [256]*Term
+
 func (t *Term) IsConst() bool { return t.op == OConst }
 func (t *Term) IsBool() bool  { return t.w == 0 }
 
-func BV(w int, v uint64) *Term { return mkTerm(OConst, w, nil, v&mask(w), "") }
+func BV(w int, v uint64) *Term {
+	if w == 8 {
+		v &= 0xff
+		if t := bv8[v]; t != nil {
+			return t
+		}
+		t := mkTerm(OConst, 8, nil, v, "")
+		bv8[v] = t
+		return t
+	}
+	return mkTerm(OConst, w, nil, v&mask(w), "")
+}
 func BoolT(b bool) *Term {
 	if b {
 		return TrueT
